@@ -115,6 +115,7 @@ func (m heapManager) run() {
 				}()
 			}
 			close(m)
+			verifYield("hm.closed")
 		}
 	}
 }
@@ -130,6 +131,7 @@ func (m heapManager) push(b *Bar, sync bool) {
 	case m <- req:
 	default:
 		go func() {
+			verifYield("push.detached")
 			m <- req
 		}()
 	}
